@@ -215,10 +215,13 @@ Attempt ==
             /\ pc' = "await" /\ UNCHANGED outcome
     /\ UNCHANGED <<cfg, plan, eff, cur, curform, method, body, hdrs, resp, hist, hdrsAlt>>
 
-\* the environment: the server that received the request answers 200 or a redirect
+\* the environment: the server that received the request answers 200 or a redirect.
+\* A file-like body is only ever redirected by a 303 (which drops it): re-sending a stream after 301/302/307/308
+\* is the subject of C11 (recorded there as D3/D4), not of the redirect policy.
+EnvOK(h) == body = "file" => h.code = 303
 NextHops == IF Mode = "planned"
             THEN (IF Len(hist) < Len(plan) THEN {plan[Len(hist) + 1]} ELSE {})
-            ELSE (IF Len(hist) < MaxHops THEN HopAlphabet(cfg, cur) ELSE {})
+            ELSE (IF Len(hist) < MaxHops THEN {h \in HopAlphabet(cfg, cur) : EnvOK(h)} ELSE {})
 Respond ==
     /\ pc = "await"
     /\ \/ \E h \in NextHops : resp' = h /\ hist' = Append(hist, h)
